@@ -1,9 +1,17 @@
 package props
 
 import (
+	gocontext "context"
+	"encoding/json"
 	"fmt"
+	"os"
+	"log/slog"
 	"sort"
 	"strings"
+	gosync "sync"
+
+	"github.com/hydraide/hydraide/app/vshim/vrt"
+	"verifharness/kit"
 )
 
 // forEachSeq calls f with every sequence over {0..n-1} of length 1..maxLen (lexicographic within a length,
@@ -64,4 +72,123 @@ func equalMaps(a, b map[string][]byte) bool {
 		}
 	}
 	return true
+}
+
+// logCap is a slog handler that keeps error-level records (hydraide reports recovered panics through slog).
+type logCap struct {
+	mu   gosync.Mutex
+	recs []string
+}
+
+func (l *logCap) Enabled(_ gocontext.Context, lv slog.Level) bool { return lv >= slog.LevelError }
+func (l *logCap) Handle(_ gocontext.Context, r slog.Record) error {
+	var b strings.Builder
+	b.WriteString(r.Message)
+	r.Attrs(func(a slog.Attr) bool {
+		if a.Key != "stack" && a.Key != "stack_trace" && a.Key != "stacktrace" {
+			v := a.Value.String()
+			if len(v) > 300 {
+				v = v[:300]
+			}
+			fmt.Fprintf(&b, " %s=%s", a.Key, v)
+		}
+		return true
+	})
+	l.mu.Lock()
+	if len(l.recs) < 50 {
+		l.recs = append(l.recs, b.String())
+	}
+	l.mu.Unlock()
+	return nil
+}
+func (l *logCap) WithAttrs([]slog.Attr) slog.Handler { return l }
+func (l *logCap) WithGroup(string) slog.Handler      { return l }
+func (l *logCap) install()                           { slog.SetDefault(slog.New(l)) }
+func (l *logCap) reset()                             { l.mu.Lock(); l.recs = nil; l.mu.Unlock() }
+func (l *logCap) take() []string {
+	l.mu.Lock()
+	defer l.mu.Unlock()
+	r := l.recs
+	l.recs = nil
+	return r
+}
+
+// replayCase loads the "case" object of a replay file named by VERIF_REPLAY (nil if not replaying).
+func replayCase() map[string]any {
+	p := os.Getenv("VERIF_REPLAY")
+	if p == "" {
+		return nil
+	}
+	b, err := os.ReadFile(p)
+	if err != nil {
+		fmt.Fprintln(os.Stderr, "INTERNAL: cannot read replay file:", err)
+		os.Exit(2)
+	}
+	var rep struct {
+		Case map[string]any `json:"case"`
+	}
+	if err := json.Unmarshal(b, &rep); err != nil || rep.Case == nil {
+		fmt.Fprintln(os.Stderr, "INTERNAL: replay file has no case:", err)
+		os.Exit(2)
+	}
+	return rep.Case
+}
+
+func caseInts(v any) []int {
+	var out []int
+	if l, ok := v.([]any); ok {
+		for _, x := range l {
+			if f, ok := x.(float64); ok {
+				out = append(out, int(f))
+			}
+		}
+	}
+	return out
+}
+
+func caseStrings(v any) []string {
+	var out []string
+	if l, ok := v.([]any); ok {
+		for _, x := range l {
+			out = append(out, fmt.Sprint(x))
+		}
+	}
+	return out
+}
+
+// vfail is one oracle failure of one execution, before it is believed.
+type vfail struct{ h, disc, what string }
+
+func vfailSig(fs []vfail) string {
+	var s []string
+	for _, f := range fs {
+		s = append(s, f.h+"|"+f.disc)
+	}
+	sort.Strings(s)
+	return strings.Join(s, ";")
+}
+
+// vrtReport evaluates the oracle for execution x and reports its failures only after the same schedule has been
+// re-executed three more times with an identical verdict. A verdict that does not reproduce is un-owned
+// nondeterminism of the machinery: it is counted (unstable_verdicts), makes the run non-exhaustive, and is never
+// raised as a violation. compute reads the harness' per-execution monitor, so it is called right after each run.
+func vrtReport(r *kit.Run, cfg vrt.Config, body func(), x *vrt.Exec, compute func(*vrt.Exec) []vfail, cs any) {
+	fs := compute(x)
+	if len(fs) == 0 {
+		return
+	}
+	want := vfailSig(fs)
+	c := cfg
+	c.TraceOn = false
+	for i := 0; i < 3; i++ {
+		y := vrt.RunOnce(&c, x.Choices(), body)
+		if got := vfailSig(compute(y)); got != want {
+			r.Count("unstable_verdicts", 1)
+			r.NotExhaustive("a verdict did not reproduce when its schedule was re-executed (machinery nondeterminism): " + want + " vs " + got)
+			return
+		}
+	}
+	for _, f := range fs {
+		r.Fail(f.h, f.disc, f.what, cs)
+	}
 }
